@@ -1,6 +1,7 @@
 package main
 
 import (
+	"os"
 	"encoding/json"
 	"fmt"
 	"math/rand"
@@ -74,5 +75,9 @@ func staticDriver(args []string) (*Summary, error) {
 		s.Counters["generated_large_feeds"]++
 	}
 	s.Records = w.N
+	if st.HookMissingRuns > 0 {
+		s.Counters["hook_missing_runs"] = st.HookMissingRuns
+		fmt.Fprintf(os.Stderr, "static.accept never fired for %s although the result holds their entities (%d parses)\n", st.HookMissingFiles, st.HookMissingRuns)
+	}
 	return s, w.Close()
 }
